@@ -111,6 +111,9 @@ def run(ctx):
     ctx.count('zero_cells_decided', zero_ok)
     ctx.require('C07 rounding cells', ncells, 20000)
     complete = (ncells == nproved and zero_ok == zero_n)
+    ctx.cov['obligations'] = ncells + zero_n
+    ctx.cov['discharged'] = nproved + zero_ok
+    ctx.cov['checker_cmd'] = './check C07 --tier ' + ctx.tier
     if not complete:
         ctx.notes.append('not every obligation was discharged in this run (%d/%d rounding cells, %d/%d zero cells): the verdict of this run is weaker than a proof' % (nproved, ncells, zero_ok, zero_n))
     ctx.undecided['general_path'] = 'nothing when all cells are proved; undecided cells are counted above'
